@@ -8,6 +8,7 @@ type sqlRows struct {
 	pos  int
 	errAt int
 	closed bool
+	failed bool
 }
 
 func replayTZ(rv *ReplayVector) string {
